@@ -220,3 +220,13 @@ def run(P: Program, R: Report, tier: str) -> None:
                    "components are taken in the solution graph itself: both daughters of a division get their mother's label")
         else:
             R.undecided("R19.2", g, g.node, "division edges are left out before components are taken", "construction of the cut graph not recognised")
+    # ---- R19.4 / R19.5 the relabeller indexes the caller's array with the node's time attribute: the producers of that
+    # attribute store the frame index of the caller's own array
+    from .c18 import callers_container, time_is_frame_index
+
+    reads_time = any(isinstance(x, ast.Subscript) and norm(x.slice) in ("NodeAttr.TIME.value", "'time'") for x in ast.walk(g.node))
+    if reads_time:
+        time_is_frame_index(P, R, "R19.4", only_seg=True)
+        callers_container(P, R, "R19.5", only_seg=True)
+    else:
+        R.undecided("R19.4", g, g.node, "the relabeller finds a node's frame through its time attribute", "read of the time attribute not recognised")
